@@ -1298,10 +1298,19 @@ def _oracle_body(case):
         qq = dict(q, cs=cs_f)
         tag = f"{q['op']}/{q.get('mode', 'mask')}/{'periodic' if box is not None else 'plain'}"
         issues = []
+        st0 = rnd.getstate() if rnd is not None else None     # derived calls replay the same argument spelling / call style:
+
+        def same_spelling(state=st0):                         # results are only compared when obtained from identical inputs
+            if state is None:
+                return None
+            import random
+            r_ = random.Random()
+            r_.setstate(state)
+            return r_
         try:
             rows = _query(np, cl, q, n, box is not None, exact, spec.get("S", 0), issues=issues, rnd=rnd)
             if first_ok is None:
-                first_ok = (q, rows)
+                first_ok = (q, rows, same_spelling)
         except Exception as e:  # noqa: BLE001
             for kind_, msg_ in issues:
                 v.append((f"C14/{q['op']}/{kind_}", msg_ + " (the call raised)"))
@@ -1388,7 +1397,7 @@ def _oracle_body(case):
         if q["op"] in ("atoms", "cells"):
             other = dict(q, mode="mask" if q["mode"] == "idx" else "idx")
             try:
-                rows2 = _query(np, cl, other, n, box is not None, exact, spec.get("S", 0))
+                rows2 = _query(np, cl, other, n, box is not None, exact, spec.get("S", 0), rnd=same_spelling())
                 if rows2 != rows:
                     v.append((f"C14/{q['op']}/mask-differs-from-indices", f"{q}: idx/mask disagree: {rows} vs {rows2}"))
             except Exception as e:  # noqa: BLE001
@@ -1396,7 +1405,7 @@ def _oracle_body(case):
             if q["rad_kind"] == "s" and q["shape"] == "m" and len(q["q"]) > 0:
                 multi = dict(q, rad_kind="m", rad=[q["rad"]] * len(q["q"]))
                 try:
-                    rows3 = _query(np, cl, multi, n, box is not None, exact, spec.get("S", 0))
+                    rows3 = _query(np, cl, multi, n, box is not None, exact, spec.get("S", 0), rnd=same_spelling())
                     if rows3 != rows:
                         v.append((f"C14/{q['op']}/scalar-differs-from-per-query-radii", f"{q}: {rows} vs {rows3}"))
                 except Exception as e:  # noqa: BLE001
@@ -1411,13 +1420,13 @@ def _oracle_body(case):
                         break
     # ---- state across calls on one object / a second object alive at the same time / permuted input order
     if first_ok is not None and not isinstance(first_ok[1], str) and n >= 1 and not case.get("light"):
-        q0, rows0 = first_ok
+        q0, rows0, spell0 = first_ok
         try:
             spec2 = dict(spec, coords=list(reversed(spec["coords"])), cs=spec["cs"] * 2,
                          sel=None if spec["sel"] is None else list(reversed(spec["sel"])))
             if exact or (spec["cs"] * 2 > 0):
                 cl2, coords2, box2 = _build(np, spec2, exact)
-                rows2 = _query(np, cl2, q0, n, box2 is not None, exact, spec.get("S", 0))
+                rows2 = _query(np, cl2, q0, n, box2 is not None, exact, spec.get("S", 0), rnd=spell0())
                 if not isinstance(rows2, str) and q0["op"] != "cells":
                     back = ([sorted(n - 1 - j for j in r) for r in reversed(rows2)] if q0["op"] == "adj"
                             else [sorted(n - 1 - j for j in r) for r in rows2])
@@ -1432,7 +1441,7 @@ def _oracle_body(case):
                                           f"{q0} on the reversed atoms with twice the cell size: row {i} = {r}, "
                                           f"required {req2[i]}, allowed {allowed2[i]}"))
                                 break
-            again = _query(np, cl, q0, n, box is not None, exact, spec.get("S", 0))
+            again = _query(np, cl, q0, n, box is not None, exact, spec.get("S", 0), rnd=spell0())
             if again != rows0:
                 v.append((f"C14/{q0['op']}/state-across-calls",
                           f"{q0} answered {rows0} first and {again} after {len(qs)} other calls on the same cell list "
